@@ -439,7 +439,11 @@ sa_addr_port_from_str(sockaddr_storage_p addr,
 	if (NULL != ptm &&
 	    ptm > buf &&
 	    ':' != (*(ptm - 1))) { /* IPv6 or port. */
+#ifdef LIBLCB_VERIF /* Verification build: test for NULL first, relational compare with NULL is undefined for the model checker. */
+		if (NULL == ptm_end || ptm > ptm_end) { /* ptm = port (':' after ']') */
+#else
 		if (ptm > ptm_end) { /* ptm = port (':' after ']') */
+#endif
 			if (NULL == ptm_end) {
 				ptm_end = ptm;
 			}
